@@ -97,6 +97,13 @@ func c07Read(r *core.Run, p C07Case) {
 		}
 		r.Trans("terminate:" + modeNames[p.Mode] + fmt.Sprintf(" empty=%v", len(plain) == 0))
 		c07Judge(r, p, data, plain, "mode="+modeNames[p.Mode], fmt.Sprintf("fill(%d) %s props code %d (%v) mode %s DictCap %d", p.Fill, symsString(p.Syms), p.Code, pr, modeNames[p.Mode], p.DictCap))
+	case "walk":
+		pr, _ := ref.PropsFromCode(byte(p.Code))
+		data, plain, err := ref.EncodeAlone(pr, 1<<20, longWalk(p.Fill, 3000), p.Mode != 0, p.Mode != 1)
+		if err != nil {
+			panic(err)
+		}
+		c07Judge(r, p, data, plain, "long-walk", fmt.Sprintf("long operation walk seed %d (3000 operations), props code %d (%v) mode %s", p.Fill, p.Code, pr, modeNames[p.Mode]))
 	case "text":
 		// a literal-rich text coded greedily: every literal context is used many times, so the
 		// choice of the literal sub-coder (lc, lp, position) matters once the tables are trained
@@ -126,7 +133,7 @@ func c07Read(r *core.Run, p C07Case) {
 func runC07(r *core.Run) {
 	corpus := bindRef(r)
 	th := thorough(r)
-	r.Rule = "writer side: the C06 space (a)-(c) restricted to lc+lp<=4, every stream judged by the reference .lzma decoder (properties byte, dictionary size >= max distance, size/marker mode truthful) and by liblzma; reader side: all legal operation sequences (depth d) x three termination modes x 4 property codes, a fixed op list x all 225 property codes x 3 modes x 2 DictCaps, a literal-rich 700-byte input x all 225 codes x 2 modes, zero-length content in all modes x all codes, after state-macro prefixes, the liblzma corpus and fresh FORMAT_ALONE encodings. states = coder states; transitions = (state, op kind) and termination-mode steps; non-trivial = distinct (family, outcome, empty?)"
+	r.Rule = "writer side: the C06 space (a)-(c) restricted to lc+lp<=4, every stream judged by the reference .lzma decoder (properties byte, dictionary size >= max distance, size/marker mode truthful) and by liblzma; reader side: all legal operation sequences (depth d) x three termination modes x 4 property codes, a fixed op list x all 225 property codes x 3 modes x 2 DictCaps, a literal-rich 700-byte input x all 225 codes x 2 modes, fixed long operation walks (3000 operations) x all 225 codes x 3 modes, zero-length content in all modes x all codes, after state-macro prefixes, the liblzma corpus and fresh FORMAT_ALONE encodings. states = coder states; transitions = (state, op kind) and termination-mode steps; non-trivial = distinct (family, outcome, empty?)"
 	// writer side
 	wcases := lzmaWCases(r, "C07")
 	var kept []LZWCase
@@ -191,6 +198,10 @@ func runC07(r *core.Run) {
 			cases = append(cases, C07Case{Kind: "ops", Code: code, Mode: mode, DictCap: 4096}) // zero-length content
 			if mode < 2 {
 				cases = append(cases, C07Case{Kind: "text", Code: code, Mode: mode, DictCap: 4096})
+			}
+			// two of the eight fixed long walks per (code, mode), all eight over the three modes
+			for _, seed := range []int{(code + mode) % 8, (code + mode + 3) % 8} {
+				cases = append(cases, C07Case{Kind: "walk", Fill: seed, Code: code, Mode: mode, DictCap: 4096})
 			}
 		}
 	}
